@@ -74,7 +74,9 @@ fn store_scenario(ctx: &Ctx, idx: u64) -> Report {
                     if rng.gen_bool(0.5) {
                         Query::Ping
                     } else {
-                        Query::AnnouncePeer { info_hash: ih, port: None, token: gen::bytes(&mut rng, 20) }
+                        // tokens of any length: the query still fits a datagram
+                        let tl = *[0usize, 20, 21, 200, 700, 1000, 1300].choose(&mut rng).unwrap();
+                        Query::AnnouncePeer { info_hash: ih, port: None, token: gen::bytes(&mut rng, tl) }
                     }
                 }
             };
@@ -107,7 +109,7 @@ pub fn check(tier: Tier) -> Check {
         level: "exploration",
         rule: "Stream store: a serving node (IPv4/IPv6, routing table filled from worlds of 0..400 nodes) gets \
                {0,1,20,60,70,140,148,149,150,200,350,500} peers of one family announced on one info-hash and is \
-               then asked get_peers / find_node / ping / announce_peer with every want, transaction ids of \
+               then asked get_peers / find_node / ping / announce_peer (tokens of 0..1300 bytes) with every want, transaction ids of \
                0..32 bytes and requesters of both families. Streams mixed-*: the query storm of C05, the store \
                histories of C06/C07, the hostile searches of C03 and the bootstrap configurations of C15 are \
                re-run. Oracle: length of every datagram passed to the socket <= 1500. Oversize get_peers \
